@@ -938,3 +938,35 @@ mod tests {
         }
     }
 }
+
+/// Verification hook (feature `verif-hooks`): run `Processor::process_update`
+/// (the explosion of one BGP UPDATE into the `Update` sent downstream) on a
+/// throw-away processor.
+#[cfg(feature = "verif-hooks")]
+pub async fn verif_process_update(
+    bgp_msg: UpdateMessage<bytes::Bytes>,
+    provenance: Provenance,
+) -> Result<Update, session::Error> {
+    let (gate, _agent) = Gate::new(0);
+    let (cmds_tx, _cmds_rx) = mpsc::channel(1);
+    let (pdu_out_tx, _pdu_out_rx) = mpsc::channel(1);
+    let unit_cfg = BgpTcpIn {
+        listen: "127.0.0.1:0".to_string(),
+        my_asn: inetnum::asn::Asn::from_u32(65000),
+        my_bgp_id: [1, 1, 1, 1],
+        peer_configs: Default::default(),
+        filter_name: Default::default(),
+    };
+    let mut p = Processor::new(
+        None,
+        gate,
+        unit_cfg,
+        cmds_tx,
+        pdu_out_tx,
+        Default::default(),
+        Default::default(),
+        0,
+    );
+    p.process_update(std::time::Instant::now(), bgp_msg, provenance)
+        .await
+}
